@@ -223,7 +223,9 @@ func (p *WorkerPool) Stats() (maxWorkers int, activeWorkers int, queuedTasks int
 	maxWorkers = p.maxWorkers
 	p.resizeMu.Unlock()
 	activeWorkers = int(atomic.LoadInt32(&p.activeWorkers))
+	p.closeMu.RLock() // Resize replaces the queue under closeMu
 	queuedTasks = len(p.taskQueue)
+	p.closeMu.RUnlock()
 	return
 }
 
